@@ -49,6 +49,12 @@ CHECKS = {
  "C05": ("model_checking", "explicit-state exploration of the real interpreter in lockstep with a reference model of the BSV script rules anchored on all 1438 node vectors: operand grid over every opcode, all short byte strings as scripts, breadth-first program search with canonical-state deduplication, limit/P2SH templates",
          "Every execution of the bounded spaces runs on the real Engine.Execute with a recording debugger; after every instruction the snapshot of both stacks is compared with the reference machine and the final verdicts are compared. The reference must reproduce the verdict and error name of every vector in script_tests.json before it may judge. States (distinct snapshots), transitions (instructions compared) and traces (executions) are counted by the run.",
          "Reference internal/ref/scriptref is written from the node's interpreter semantics as the author knows them and certified only on the shipped vectors; scripts reaching a signature opcode are judged by C06; elements above 70,000 bytes are not materialised.", "DESIGN.md §4 C05"),
+ "C08": ("model_checking", "explicit-state exploration of the real interpreter with value-semantics lockstep (every stack item after every step) over a provenance x transformer grid, the mixed-alphabet program search and real signature spends, plus byte-for-byte comparison of caller-owned script buffers and the transaction before/after",
+         "Every execution compares all items of both stacks with the value-semantics reference after each instruction (an aliasing bug shows as a change in an item the opcode does not touch), and the caller's script buffers, tx serialisation and the recorded spent output after the run, with and without a debugger.",
+         "Same reference and anchor as C05; signature verdicts in these runs are not judged here (C06).", "DESIGN.md §4 C08"),
+ "C19": ("model_checking", "explicit-state exploration of the real interpreter, every program run five ways (none / recording / scribbling debugger, direct and through debug.NewDebugger), with a lifecycle automaton over the callback trace and snapshot-sequence comparison",
+         "For every program of the bounded spaces: identical verdict and error text with and without debuggers, callback trace accepted by the lifecycle automaton, scribbling over every snapshot changes neither the trace nor the snapshot sequence, snapshot indices consistent, consecutive snapshots consistent with the reference effect of the instruction.",
+         "Lifecycle grammar derived from debug.go's documentation and thread.execute; same reference as C05.", "DESIGN.md §4 C19"),
 }
 
 PENDING_REASON = "check not built yet in this round (planned, see DESIGN.md §4); not claimed until its exhaustive check exists and is quiet on the unchanged tree"
